@@ -340,8 +340,11 @@ Definition process_reject (s : sess) (m : minput) (r : rej) : sess * sstate :=
       end
   | RTooLow _ _ => do_target_too_low s m
   | RBadBegin => (initiate_logout_in_reply_to s None, SLogout)
-  | RMsg 9 _ _ | RMsg 10 _ _ => (initiate_logout_in_reply_to (do_reject s m r) None, SLogout)
-  | _ => (incr_tgt (do_reject s m r), SInSession)
+  | RMsg reason _ _ =>
+      if (reason =? 9) || (reason =? 10)                 (* CompID problem, SendingTime accuracy problem *)
+      then (initiate_logout_in_reply_to (do_reject s m r) None, SLogout)
+      else (incr_tgt (do_reject s m r), SInSession)
+  | RRejectLogon => (incr_tgt (do_reject s m r), SInSession)
   end.
 
 (* session.handleLogon: Some error or success *)
